@@ -953,7 +953,7 @@ func checkScan(r *Run, prog *Program, a *Anchors, pfx string) {
 			return
 		}
 		x, y := ps.sym(st, bo.X), ps.sym(st, bo.Y)
-		isName := func(s *Sym) bool { return isFieldOfValue(s, "name") }
+		isName := func(s *Sym) bool { return isFieldOfValue(s, bindingField(prog, "name")) }
 		if isName(x) {
 			x, y = y, x
 		}
@@ -995,7 +995,7 @@ func checkScan(r *Run, prog *Program, a *Anchors, pfx string) {
 			continue
 		}
 		nsub++
-		if fresh && len(segs) == 2 && isFieldOfValue(segs[0], "path") && segs[1].K == sSlice && strings.HasPrefix(segs[1].Str, "const(1):") {
+		if fresh && len(segs) == 2 && isFieldOfValue(segs[0], bindingField(prog, "path")) && segs[1].K == sSlice && strings.HasPrefix(segs[1].Str, "const(1):") {
 			okSub++
 		}
 	}
@@ -1013,7 +1013,7 @@ func checkScan(r *Run, prog *Program, a *Anchors, pfx string) {
 		}
 		pv, _ := present.BoolConst()
 		if pv {
-			r.Check(pfx+".scan", "concrete-binding-value", prog.pos(sm.Ret.Pos()), isFieldOfValue(val, "value") && err.IsNil(), "a key/index binding referenced alone must yield exactly the bound value; got "+shortKey(val))
+			r.Check(pfx+".scan", "concrete-binding-value", prog.pos(sm.Ret.Pos()), isFieldOfValue(val, bindingField(prog, "value")) && err.IsNil(), "a key/index binding referenced alone must yield exactly the bound value; got "+shortKey(val))
 		} else {
 			r.Check(pfx+".scan", "concrete-binding-with-subpath", prog.pos(sm.Ret.Pos()), errClass(sm, err) == "nonnil", "selecting inside a key/index binding must be an error")
 		}
